@@ -169,6 +169,17 @@ def main():
             other = dict(base, cfg=graphs.gen_cfg(ck.rng, gd))
             other["opts"] = dict(base["opts"], disable_batching=ck.rng.random() < 0.3, return_all_edges=ck.rng.random() < 0.2)
             ck.guard(run_case, ck, other)
+    # directed graphs with 67..140 layers in which every old layer is re-entered from a later one: bookkeeping of the
+    # seen layers that only changes after dozens of layers (merging, pruning) is exercised here
+    for _ in range(3 if not ck.thorough else 15):
+        if ck.enough():
+            break
+        gd = graphs.many_layer_directed_def(ck.rng)
+        cfg = graphs.gen_cfg(ck.rng, gd)
+        cfg["batch_size"] = ck.rng.choice([2, 7, 2**20])
+        opts = {"max_layer_size_to_store": ck.rng.choice([None, 1000]), "return_all_hashes": ck.rng.random() < 0.5, "return_all_edges": False, "disable_batching": ck.rng.random() < 0.3}
+        ck.guard(run_case, ck, {"gd": gd.to_json(), "cfg": cfg, "opts": opts, "starts": None})
+        ck.count("many-layer-directed")
     ck.assumptions = [
         "hash injective on the explored set (hook H2 reports any equal-hash/different-state event; none tolerated)",
         "orbits capped for the correspondence; the theorems are unbounded",
